@@ -28,7 +28,7 @@ ASSUMPTIONS = ['oracle: the model re-implemented from its definition and differe
                'contract; cases with cond(F) >= 1e10 are undetermined']
 MIN_REACH = {'fitting:jacobian': 1, 'fitting:lmfit_jacobian': 1, 'fitting:covar_errors': 1, 'fitting:errors': 1,
              'fitting:do_lmfit': 1}
-MIN_COUNTERS = {'contract_component_errors': 10, 'component_shape_errors_judged': 5, 'contract_jacobian': 50, 'contract_lmfit_jacobian': 50, 'contract_covar_errors': 50,
+MIN_COUNTERS = {'contract_Cmatrix': 10, 'contract_Bmatrix': 5, 'contract_component_errors': 10, 'component_shape_errors_judged': 5, 'contract_jacobian': 50, 'contract_lmfit_jacobian': 50, 'contract_covar_errors': 50,
                 'sigma_entries_judged': 100}
 
 _OBS = None
@@ -173,6 +173,19 @@ def post_covar_errors(params, data, errs, B, C, result):
         want, cond = fisher.onesigma_from_jacobian(Jt, errs=errs, C=C, B=None if C is not None else B)
     except np.linalg.LinAlgError:
         want, cond = None, np.inf
+    # the noise model enters through inv(C) (or B = C^-1/2): both sides lose cond(C)*eps there, in different ways
+    cond_c = 1.0
+    try:
+        if C is not None:
+            cond_c = float(np.linalg.cond(np.asarray(C, dtype=float)))
+        elif B is not None:
+            cond_c = float(np.linalg.cond(np.asarray(B, dtype=float))) ** 2
+    except np.linalg.LinAlgError:
+        cond_c = np.inf
+    o.worst('log10_cond_of_noise_covariance', np.log10(cond_c) if np.isfinite(cond_c) and cond_c > 0 else 99)
+    if not np.isfinite(cond_c) or cond_c * 2e-16 > 1e-4:
+        o.count('sigma_undetermined_ill_conditioned_noise_covariance')
+        return True
     if want is None or not np.isfinite(cond) or cond >= 1e10 or not np.all(np.isfinite(want)):
         o.count('sigma_undetermined_ill_conditioned')
         # the documented behaviour for a singular matrix is a negative marker or a finite number; NaN/None would
@@ -185,7 +198,7 @@ def post_covar_errors(params, data, errs, B, C, result):
             continue
         rel = abs(g - w) / w
         o.worst('sigma_rel_err', rel)
-        if rel > 1e-6 + cond * 1e-13:
+        if rel > 1e-6 + cond * 1e-13 + cond_c * 2e-15:
             # whose sigma is it?
             hint = None
             for (k2, nm2), w2 in zip(labels, want):
@@ -197,7 +210,88 @@ def post_covar_errors(params, data, errs, B, C, result):
     return True
 
 
-def post_result_to_components(model, sources):
+def sphere_sep(r1, d1, r2, d2):
+    from aegmon.refs import sphere
+    return sphere.sep(r1, d1, r2, d2)
+
+
+def position_angle(r1, d1, r2, d2):
+    from aegmon.refs import sphere
+    return sphere.position_angle(r1, d1, r2, d2)
+
+
+def _oracle_wcs(finder):
+    """independent WCS of the image the finder is working on (None when out of the oracle's scope)"""
+    try:
+        from aegmon.props import c16
+        z = c16._zw(finder.global_data.wcshelper)
+        return z if z else None
+    except Exception:
+        return None
+
+
+def post_Cmatrix(x, y, sx, sy, theta, result):
+    """the noise model: C[i,j] = elliptical Gaussian of the separation of pixels i and j (sigmas sx, sy; theta degrees CCW
+    from the x axis), the same function the fitted model uses"""
+    o = _OBS
+    if o is None:
+        return True
+    x = np.asarray(x, dtype=float)
+    y = np.asarray(y, dtype=float)
+    n = len(x)
+    if n == 0 or n > 700 or (n > 150 and o.counters.get('contract_Cmatrix', 0) % 4):
+        o.count('contract_Cmatrix_skipped_size')
+        o.count('contract_Cmatrix')
+        return True
+    o.count('contract_Cmatrix')
+    o.n_eval += 1
+    t = np.deg2rad(theta)
+    dx = x[:, None] - x[None, :]
+    dy = y[:, None] - y[None, :]
+    u = dx * np.cos(t) + dy * np.sin(t)
+    v = dx * np.sin(t) - dy * np.cos(t)
+    want = np.exp(-0.5 * ((u / sx) ** 2 + (v / sy) ** 2))
+    got = np.asarray(result, dtype=float)
+    if got.shape != want.shape:
+        o.violate('Cmatrix_shape', {'n': n, 'got': list(got.shape)})
+        return True
+    err = float(np.max(np.abs(got - want)))
+    o.worst('Cmatrix_abs_err', err)
+    if err > 1e-9:
+        i, j = np.unravel_index(np.argmax(np.abs(got - want)), got.shape)
+        o.violate('Cmatrix', {'sx': float(sx), 'sy': float(sy), 'theta': float(theta), 'n_pixels': n,
+                              'pixel_i': [float(x[i]), float(y[i])], 'pixel_j': [float(x[j]), float(y[j])],
+                              'got': float(got[i, j]), 'want': float(want[i, j]),
+                              'mirrored': bool(abs(got[i, j] - np.exp(-0.5 * (((-dx[i, j]) * np.cos(t) + dy[i, j] * np.sin(t)) ** 2 / sx ** 2
+                                                                                  + ((-dx[i, j]) * np.sin(t) - dy[i, j] * np.cos(t)) ** 2 / sy ** 2))) < 1e-9)})
+    return True
+
+
+def post_Bmatrix(C, result):
+    """B B^T = C^-1 (judged when C is well enough conditioned that the eigenvalue floor 1e-9 max is not reached)"""
+    o = _OBS
+    if o is None:
+        return True
+    C = np.asarray(C, dtype=float)
+    n = C.shape[0]
+    if n == 0 or n > 400:
+        return True
+    w = np.linalg.eigvalsh(C)
+    if w[0] <= 1e-8 * w[-1]:
+        o.count('contract_Bmatrix_floored_not_judged')
+        return True
+    o.count('contract_Bmatrix')
+    o.n_eval += 1
+    B = np.asarray(result, dtype=float)
+    resid = B.dot(B.T).dot(C) - np.eye(n)
+    err = float(np.max(np.abs(resid)))
+    o.worst('Bmatrix_BBtC_minus_I', err)
+    if err > 1e-6 * (w[-1] / w[0]) * 1e-2 + 1e-7:
+        o.violate('Bmatrix', {'n': n, 'max_abs_BBtC_minus_I': err, 'cond': float(w[-1] / w[0])})
+    return True
+
+
+def post_result_to_components(model, sources, finder=None):
     """err_* catalogue columns (observe_at #3): the reported errors of a component are the sky projections of ITS OWN
     pixel-space 1-sigma errors.  A length and its error scale by the same factor along one direction, so the relative
     errors are preserved:  err_a/a = err_s/s of whichever of (sx, sy) became the major axis, likewise for b;
@@ -227,31 +321,66 @@ def post_result_to_components(model, sources):
                 o.violate('err_peak_flux_is_not_err_amp', w)
         free_shape = model[pre + 'sx'].vary and model[pre + 'sy'].vary
         ok = lambda v: v is not None and np.isfinite(v) and v > 0
+        z = _oracle_wcs(finder)
+        if z is None:
+            o.count('component_errors_no_oracle_wcs')
+            continue
+        try:
+            xo, yo = float(model[pre + 'xo'].value), float(model[pre + 'yo'].value)     # 1-based (row, column) by now
+            theta = float(model[pre + 'theta'].value)
+        except KeyError:
+            continue
+
+        def sky(px, py):
+            r, d = z.pix2sky(py, px)
+            return float(r), float(d)
+
+        def skylen(s1, s2, ang):
+            c, sn = np.cos(np.radians(ang)), np.sin(np.radians(ang))
+            p1 = sky(xo + s1 * c, yo + s1 * sn)
+            p2 = sky(xo + s2 * c, yo + s2 * sn)
+            return float(sphere_sep(p1[0], p1[1], p2[0], p2[1]))
         if free_shape and ok(esx) and ok(esy) and ok(src.err_a) and ok(src.err_b) and ok(src.a) and ok(src.b):
-            if abs(sx - sy) <= 2e-2 * max(sx, sy):
-                o.count('component_errors_round_not_paired')
-            elif esx > 0.2 * sx or esy > 0.2 * sy:
+            if esx > 0.2 * sx or esy > 0.2 * sy:
                 # the sky error is a finite displacement: only linear (hence comparable) while the error is small
                 o.count('component_errors_unconstrained_not_judged')
             else:
-                (smaj, emaj), (smin, emin) = ((sx, esx), (sy, esy)) if sx > sy else ((sy, esy), (sx, esx))
-                ra_, rb_ = src.err_a / src.a, src.err_b / src.b
-                o.count('component_shape_errors_judged')
-                da = abs(ra_ - emaj / smaj) / (emaj / smaj)
-                db = abs(rb_ - emin / smin) / (emin / smin)
-                o.worst('err_a_over_a_vs_pixel_rel', da)
-                o.worst('err_b_over_b_vs_pixel_rel', db)
-                if da > 0.02 or db > 0.02:
-                    crossed = abs(ra_ - emin / smin) <= 0.02 * (emin / smin) and abs(rb_ - emaj / smaj) <= 0.02 * (emaj / smaj)
-                    o.violate('shape_errors_are_not_the_components_own', dict(w, rel_err_a=ra_, rel_err_b=rb_, pixel_rel_major=emaj / smaj,
-                                                                             pixel_rel_minor=emin / smin, crossed=bool(crossed)),
-                              None)
-        if model[pre + 'theta'].vary and ok(eth) and ok(src.err_pa) and eth < 20.0:
-            o.count('component_pa_errors_judged')
-            d = abs(src.err_pa - eth) / eth
-            o.worst('err_pa_vs_err_theta_rel', d)
-            if d > 0.10:
-                o.violate('err_pa_is_not_err_theta', w)
+                # the sky projection of each pixel-space error along ITS OWN axis (independent WCS), as FWHM arcsec
+                k = 3600.0 * 2.0 * np.sqrt(2.0 * np.log(2.0))
+                e_x = k * skylen(sx, sx + esx, theta)
+                e_y = k * skylen(sy, sy + esy, theta + 90.0)
+                l_x = k * skylen(0.0, sx, theta)
+                l_y = k * skylen(0.0, sy, theta + 90.0)
+                if abs(l_x - l_y) <= 0.03 * max(l_x, l_y):
+                    o.count('component_errors_round_not_paired')
+                else:
+                    (emaj, emin) = (e_x, e_y) if l_x > l_y else (e_y, e_x)
+                    o.count('component_shape_errors_judged')
+                    da = abs(src.err_a - emaj) / emaj
+                    db = abs(src.err_b - emin) / emin
+                    o.worst('err_a_vs_own_axis_projection_rel', da)
+                    o.worst('err_b_vs_own_axis_projection_rel', db)
+                    if da > 0.01 or db > 0.01:
+                        crossed = abs(src.err_a - emin) <= 0.01 * emin and abs(src.err_b - emaj) <= 0.01 * emaj
+                        o.violate('shape_errors_are_not_the_components_own', dict(w, expected_err_a=emaj, expected_err_b=emin,
+                                                                                 crossed=bool(crossed)), None)
+        if model[pre + 'theta'].vary and ok(eth) and ok(src.err_pa) and eth < 20.0 and sx > 0 and sy > 0:
+            # err_pa = change of bearing, for a change err_theta of theta, of the axis along theta (the reported pa is that
+            # bearing, plus a constant 90 deg when sy turned out to be the major axis) - independent WCS
+            big = sx
+            ang0 = theta
+            c0 = sky(xo, yo)
+
+            def bearing(ang):
+                p = sky(xo + big * np.cos(np.radians(ang)), yo + big * np.sin(np.radians(ang)))
+                return float(position_angle(c0[0], c0[1], p[0], p[1]))
+            dpa = abs((bearing(ang0 + eth) - bearing(ang0) + 180.0) % 360.0 - 180.0)
+            if dpa > 0:
+                o.count('component_pa_errors_judged')
+                d = abs(src.err_pa - dpa) / dpa
+                o.worst('err_pa_vs_bearing_change_rel', d)
+                if d > 0.05:
+                    o.violate('err_pa_is_not_err_theta', dict(w, expected_err_pa=dpa))
 
 
 class ContractBroken(Exception):
@@ -264,7 +393,8 @@ def install():
         return
     import icontract
     from AegeanTools import fitting
-    posts = {'jacobian': post_jacobian, 'lmfit_jacobian': post_lmfit_jacobian, 'covar_errors': post_covar_errors}
+    posts = {'jacobian': post_jacobian, 'lmfit_jacobian': post_lmfit_jacobian, 'covar_errors': post_covar_errors,
+             'Cmatrix': post_Cmatrix, 'Bmatrix': post_Bmatrix}
     for name, cond in posts.items():
         orig = getattr(fitting, name)
         _orig[name] = orig
@@ -282,7 +412,7 @@ def install():
     def result_to_components(self, result, model, island_data, isflags):
         out = orig_rtc(self, result, model, island_data, isflags)
         try:
-            post_result_to_components(model, out)
+            post_result_to_components(model, out, self)
         except Exception as e:          # a monitor fault must never change the subject's behaviour
             if _OBS is not None:
                 _OBS.count('contract_component_errors_monitor_fault')
@@ -407,6 +537,12 @@ def run(case):
                         t['src']['a'] = max(t['src']['a'], 1.8 * t['src']['b'])
                         t['snr'] = float(rng.uniform(40, 90))
                         t['flip_dec'] = False
+                    if rng.random() < 0.35:
+                        # an anisotropic plate scale at the source: rectangular pixels, so that a length along the major
+                        # axis and one along the minor axis convert with different factors
+                        t['cdelt_ratio'] = float(rng.choice([0.6, 0.75, 1.3, 1.6]))
+                        t['flip_dec'] = False
+                        o.count('insitu_fits_with_rectangular_pixels')
                     if t['docov']:
                         t['src']['a'] = min(t['src']['a'], 9.0 * t['scale'] * 3600)
                         t['src']['b'] = min(t['src']['b'], t['src']['a'])
